@@ -17,7 +17,7 @@ import (
 	"symgo/sym"
 )
 
-const verifDir = "/verif"
+var verifDir = sym.VerifDir
 
 type knownFinding struct {
 	Property string
